@@ -12,7 +12,7 @@ git checkout -q --detach $(git -C /repo rev-parse HEAD) && git checkout -- . && 
 git apply $d/patch.diff || { echo "patch does not apply"; exit 2; }
 DV=${DETECT_VERIF:-/tmp/detect_verif}; mkdir -p $DV; cp /verif/known_findings.json $DV/; : > $d/detect.log
 for p in $props; do
-  VERIF_REPO=$R VERIF_DIR=$DV /verif/bin/gbverif check $p 2>&1 | grep -E "^(VIOLATION|KNOWN-FINDING|C[0-9]+ tier)" | sed "s#$DV#/verif#" >> $d/detect.log
+  VERIF_REPO=$R VERIF_DIR=$DV ${GBVERIF:-/verif/bin/gbverif} check $p 2>&1 | grep -E "^(VIOLATION|KNOWN-FINDING|C[0-9]+ tier)" | sed "s#$DV#/verif#" >> $d/detect.log
 done
 git checkout -- .
 n=$(grep -c "^VIOLATION" $d/detect.log)
